@@ -22,7 +22,8 @@ func init() {
 			"C04.5 the insert into Manager.allocations is dominated by GetAllocation(fiveTuple)==nil, and the Allocate handler calls CreateAllocation only when GetAllocation(request tuple)==nil; " +
 			"C04.7 (=C16.2) a ConnectionBind naming another user's connection id has no effect on that connection: the single-use flag is consumed only after the user test; " +
 			"C04.8 every table shared by the clients of a listener (map fields of Manager, Server, Request) is keyed by a type that is or contains the 5-tuple fingerprint; " +
-			"C04.6 package server obtains *Allocation values only from the keyed lookups and CreateAllocation.",
+			"C04.6 package server obtains *Allocation values only from the keyed lookups and CreateAllocation; " +
+			"C04.9 requests are handled on the read loop's own goroutine, or a hand-off to goroutines is conditioned on a per-5-tuple busy table.",
 		NotCovered: "interleavings (the check-then-insert window between GetAllocation and the insert); cross-talk through operator callbacks.",
 		Run:        runC04,
 	})
@@ -37,6 +38,90 @@ func runC04(c *Ctx) {
 	ruleAllocSources(c, "C04.6")
 	ruleSingleUseOwner(c, "C04.7")
 	ruleSharedStateKeyedByTuple(c, "C04.8")
+	ruleOneHandlerPerTuple(c, "C04.9")
+}
+
+// ruleOneHandlerPerTuple (C04.9). The handlers decide by check-then-act on the allocation table
+// (Allocate: "is this 5-tuple taken?" … then CreateAllocation; Refresh: look up, then delete).
+// That is sound because the requests of one 5-tuple are handled one after the other: a packet
+// listener handles everything on its read loop, a stream connection has its own loop. A server
+// that hands requests to other goroutines keeps this only if the hand-off is sequenced per
+// 5-tuple. Necessary condition checked here: every `go` statement (in the root package, reached
+// from readLoop) whose goroutine reaches server.HandleRequest is control-dependent — directly or
+// through the result of a helper — on a lookup in a map keyed by allocation.FiveTupleFingerprint
+// (the per-client busy table). Not checked: that the table is maintained correctly.
+func ruleOneHandlerPerTuple(c *Ctx, rule string) {
+	w := c.W
+	c.Rule(rule, "one handler per 5-tuple at a time: server.HandleRequest runs on the read loop's own goroutine, or, where readLoop hands requests to goroutines, each such `go` statement is control-dependent on a lookup in a map keyed by FiveTupleFingerprint (a per-client busy table)", 1)
+	rl := w.Func("turn", "Server", "readLoop")
+	handle := w.Func("server", "", "HandleRequest")
+	fpT := w.Named("allocation", "FiveTupleFingerprint")
+	c.Anchor(rule, "readLoop hand-off")
+	rootPath := fnPkgPath(rl)
+	reach := map[*ssa.Function]bool{}
+	var visit func(f *ssa.Function)
+	visit = func(f *ssa.Function) {
+		if f == nil || reach[f] || len(f.Blocks) == 0 || fnPkgPath(f) != rootPath {
+			return
+		}
+		reach[f] = true
+		for _, a := range f.AnonFuncs {
+			visit(a)
+		}
+		w.eachInstr(f, func(in ssa.Instruction) {
+			if ci, ok := in.(ssa.CallInstruction); ok {
+				visit(ci.Common().StaticCallee())
+			}
+		})
+	}
+	visit(rl)
+	reachesHandle := w.mayContain(func(in ssa.Instruction) bool {
+		ci, ok := in.(ssa.CallInstruction)
+		return ok && ci.Common().StaticCallee() == handle
+	})
+	isBusyLookup := func(x ssa.Value, _ []*ssa.Call) bool {
+		lk, ok := x.(*ssa.Lookup)
+		if !ok {
+			return false
+		}
+		m, isMap := lk.X.Type().Underlying().(*types.Map)
+		return isMap && namedOf(m.Key()) == fpT
+	}
+	n := 0
+	for _, fn := range sortedFns(reach) {
+		w.eachInstr(fn, func(in ssa.Instruction) {
+			g, ok := in.(*ssa.Go)
+			if !ok {
+				return
+			}
+			var body *ssa.Function
+			if mc, isMC := g.Call.Value.(*ssa.MakeClosure); isMC {
+				body = w.closureBody(mc)
+			} else {
+				body = g.Call.StaticCallee()
+			}
+			if body == nil || !reachesHandle(body) {
+				return
+			}
+			n++
+			seq := false
+			for _, f := range w.factsAt(g) {
+				for _, v := range []ssa.Value{f.X, f.Y} {
+					if v != nil && !seq && w.depWalk(v, nil, isBusyLookup) {
+						seq = true
+					}
+				}
+			}
+			if seq {
+				c.OK(rule, fname(fn), "hand-off", w.instrPos(in), "the goroutine is started only on the outcome of a lookup in a table keyed by the request's 5-tuple fingerprint")
+			} else {
+				c.Bad(rule, fname(fn), "hand-off", w.instrPos(in), "requests are handed to a goroutine here without any per-5-tuple sequencing: two requests of one client (an Allocate and its retransmission) run through the handlers' check-then-act on the allocation table at the same time — one 5-tuple can end up with two allocations, one of them orphaned")
+			}
+		})
+	}
+	if n == 0 {
+		c.OK(rule, fname(rl), "hand-off", w.pos(rl.Pos()), "requests are handled on the read loop's own goroutine")
+	}
 }
 
 func ruleAllocTableKeys(c *Ctx, rule string) {
@@ -157,20 +242,12 @@ func ruleRequestTuples(c *Ctx, rule string) {
 	// readLoop builds the Request
 	{
 		rl := w.Func("turn", "Server", "readLoop")
-		handle := w.Func("server", "", "HandleRequest")
 		c.Anchor(rule, "readLoop Request")
-		found := false
-		w.eachInstr(rl, func(in ssa.Instruction) {
-			call, ok := in.(*ssa.Call)
-			if !ok || call.Call.StaticCallee() != handle {
-				return
-			}
-			found = true
-			lit := w.literalOf(call.Call.Args[0])
-			if lit == nil {
-				c.Bad(rule, fname(rl), "Request literal", w.instrPos(in), "HandleRequest argument is not a Request literal")
-				return
-			}
+		rb := w.requestBuild()
+		for _, p := range rb.problems {
+			c.Bad(rule, fname(rl), "Request literal", w.pos(rl.Pos()), p)
+		}
+		for _, lit := range rb.lits {
 			conn := lit.fields["Conn"]
 			src := lit.fields["SrcAddr"]
 			buf := lit.fields["Buff"]
@@ -183,13 +260,10 @@ func ruleRequestTuples(c *Ctx, rule string) {
 				ok3 = hc == rc && hi == 0 && sl.Low == nil && w.sameKey(sl.X, rc.Call.Args[0])
 			}
 			if ok1 && ok2 && ok3 {
-				c.OK(rule, fname(rl), "Request literal", w.instrPos(in), "Conn = loop conn, SrcAddr = #1 and Buff = buf[:#0] of the same conn.ReadFrom(buf)")
+				c.OK(rule, fname(rl), "Request literal", rb.at[lit], fmt.Sprintf("Conn = loop conn, SrcAddr = #1 and Buff = buf[:#0] of the same conn.ReadFrom(buf); the only place a Request is built, handled at %d call(s) of HandleRequest reached from the loop", len(rb.handles)))
 			} else {
-				c.Bad(rule, fname(rl), "Request literal", w.instrPos(in), fmt.Sprintf("Request is not built from one read of the loop's conn (Conn ok=%v, SrcAddr ok=%v, Buff ok=%v)", ok1, ok2, ok3))
+				c.Bad(rule, fname(rl), "Request literal", rb.at[lit], fmt.Sprintf("Request is not built from one read of the loop's conn (Conn ok=%v, SrcAddr ok=%v, Buff ok=%v)", ok1, ok2, ok3))
 			}
-		})
-		if !found {
-			c.Bad(rule, fname(rl), "Request literal", w.pos(rl.Pos()), "readLoop no longer calls server.HandleRequest: anchor gone")
 		}
 	}
 	// teardown tuple in readListener
